@@ -779,3 +779,59 @@ func VerifLayout(n int) {
 		verifExpectShift("C06-shift", "C06/newline-inside-string-literal-changes-more-than-rows/"+name, a, b, outA, outB, at, added)
 	}
 }
+
+// ---- C13: consistent renaming ----
+
+type verifRenameSkel struct {
+	category string
+	ref      string
+	names    []string
+	text     string // uses the reference name
+}
+
+var verifRenameSkels = []verifRenameSkel{
+	{"local-variable", "zzq", []string{"v", "a1", "_t", "long_name_x", "q"},
+		"zzq = Sym.a\ndbtp zzq\ny = zzq\ndbtp y\nzzq = [zzq, 1]\ndbtp zzq\nundefined_fn(zzq)\n"},
+	{"method", "zzq", []string{"foo", "f", "bar_baz", "q1", "go"},
+		"def zzq(v)\nv\nend\nr = zzq(Sym.a)\ndbtp r\nzzq(1, 2)\nzzq\n"},
+	{"class", "Zzq", []string{"Hx", "H", "Zed", "Ab1", "Qq"},
+		"class Zzq\ndef foo\n1\nend\ndef self.make\nZzq.new\nend\nend\no = Zzq.new\ndbtp o.foo\ndbtp Zzq.make\ndbtp Zzq.new.foo\nZzq.bar\no.baz\n"},
+	{"instance-variable", "zzq", []string{"v", "a1", "_t", "count", "q"},
+		"class Kxy\ndef initialize\n@zzq = Sym.a\nend\ndef get\n@zzq\nend\nend\ndbtp Kxy.new.get\n"},
+	{"setter-method", "zzq", []string{"val", "v", "a_b", "x1", "go"},
+		"class Kxy\ndef zzq=(w)\n@s = w\nend\ndef zzq\n@s\nend\nend\no = Kxy.new\no.zzq = Sym.a\ndbtp o.zzq\n"},
+	{"heredoc-terminator", "ZZQ", []string{"EOS", "EOT", "TXT", "E", "HEREDOC"},
+		"x = <<ZZQ\nE dbtp 1\nZZQ\ndbtp x\ny = 1\ndbtp y\n"},
+	{"method-with-predicate-suffix", "zzq?", []string{"ok?", "f?", "is_it?", "q1?", "go?"},
+		"def zzq?(v)\ntrue\nend\nr = zzq?(Sym.a)\ndbtp r\n"},
+}
+
+// VerifRename: the program with the reference name vs. the same program with a fresh name of
+// the same lexical category; outputs must be equal after the same substitution.
+func VerifRename(n int) {
+	sk := verifRenameSkels[verifapi.Concrete(verifapi.Int("skeleton", 0, len(verifRenameSkels)-1))]
+	name := sk.names[verifapi.Concrete(verifapi.Int("name", 0, len(sk.names)-1))]
+	var need []string
+	if strings.Contains(sk.text, "Sym.a") {
+		need = append(need, "a")
+	}
+	s := verifInstallSym(need...)
+	verifapi.WitnessList("Sym.a", verifKN(s.ka))
+	a := sk.text
+	b := strings.ReplaceAll(sk.text, sk.ref, name)
+	verifapi.Witness("srcA", a)
+	verifapi.Witness("srcB", b)
+	verifapi.Witness("rename-from", sk.ref)
+	verifapi.Witness("rename-to", name)
+	outA, outB := verifRunTwo(a, b)
+	verifapi.Reach("ran")
+	shape := "ordinary-name"
+	if len(name) == 1 || (len(name) == 2 && strings.HasSuffix(name, "?")) {
+		shape = "one-character-name"
+	}
+	if sk.category == "heredoc-terminator" {
+		shape = "body-token-is-substring-of-terminator"
+	}
+	verifapi.Classify("C13/output-differs-beyond-renaming/" + sk.category + "/" + shape)
+	verifapi.Assert(outB == strings.ReplaceAll(outA, sk.ref, name), "C13-rename")
+}
